@@ -654,14 +654,72 @@ Proof.
 Qed.
 
 (** * Lookup and iteration *)
+(** Bisection finds the boundary of any monotone predicate. *)
+Lemma half_between i j : (i < j)%nat -> (i <= (i + j) / 2 < j)%nat.
+Proof. intro H. split; [apply Nat.div_le_lower_bound; lia | apply Nat.div_lt_upper_bound; lia]. Qed.
+
+Lemma bsearch_spec f : (forall x y, (x <= y)%nat -> f x = true -> f y = true) ->
+  forall fuel i j, (j - i <= fuel)%nat -> (i <= j)%nat ->
+  (forall x, (x < i)%nat -> f x = false) -> (forall x, (j <= x)%nat -> f x = true) ->
+  let r := bsearch fuel f i j in
+  (forall x, (x < r)%nat -> f x = false) /\ (forall x, (r <= x)%nat -> f x = true).
+Proof.
+  intro Hm. induction fuel as [|fu IH]; intros i j Hf Hij Hlo Hhi; cbn [bsearch].
+  - assert (i = j) by lia. subst. split; auto.
+  - destruct (Nat.ltb i j) eqn:E.
+    + apply Nat.ltb_lt in E. pose proof (half_between i j E) as [H1 H2].
+      destruct (f ((i + j) / 2)%nat) eqn:Fh.
+      * apply IH; auto; try lia. intros x Hx. eapply Hm; eauto.
+      * apply IH; auto; try lia. intros x Hx.
+        destruct (f x) eqn:Fx; auto. assert (f ((i + j) / 2)%nat = true) by (eapply Hm; [|exact Fx]; lia). congruence.
+    + apply Nat.ltb_ge in E. assert (i = j) by lia. subst. split; auto.
+Qed.
+
+Lemma sorted_nth_lt s : SortedUnique s -> forall x y a b, (x < y)%nat ->
+  nth_error s x = Some a -> nth_error s y = Some b -> key_lt (fst a) (fst b).
+Proof.
+  induction s as [|c s IH]; intros Hs x y a b Hxy Ha Hb; [destruct x; discriminate|].
+  destruct Hs as [H1 H2]. destruct y as [|y]; [lia|]. cbn in Hb. destruct x as [|x].
+  - cbn in Ha. inversion Ha; subst. apply H1. eapply nth_error_In; eauto.
+  - cbn in Ha. apply (IH H2 x y a b); auto. lia.
+Qed.
+
+Lemma key_ge_at_mono s k : SortedUnique s ->
+  forall x y, (x <= y)%nat -> key_ge_at s k x = true -> key_ge_at s k y = true.
+Proof.
+  intros Hs x y Hxy. unfold key_ge_at. destruct (nth_error s y) as [b|] eqn:Eb; [|auto].
+  destruct (nth_error s x) as [a|] eqn:Ea.
+  - intro H. destruct (Nat.eq_dec x y) as [->|Hn]; [congruence|].
+    assert (L : key_lt (fst a) (fst b)) by (apply (sorted_nth_lt s Hs x y a b); auto; lia).
+    apply key_leb_spec. left. eapply key_le_lt_trans; eauto.
+  - apply nth_error_None in Ea. assert (nth_error s y = None) by (apply nth_error_None; lia). congruence.
+Qed.
+
+(** Looking at the boundary index of "key >= k" is the same as scanning for k. *)
+Lemma boundary_lookup s k : SortedUnique s -> forall r,
+  (forall x, (x < r)%nat -> key_ge_at s k x = false) -> (forall x, (r <= x)%nat -> key_ge_at s k x = true) ->
+  match nth_error s r with Some (k', v) => if bytes_eqb k k' then Some v else None | None => None end = assoc k s.
+Proof.
+  induction s as [|[k0 v0] s IH]; intros Hs r Hlo Hhi.
+  - destruct r; reflexivity.
+  - destruct Hs as [H1 H2]. cbn [fst] in H1. destruct r as [|r].
+    + specialize (Hhi 0%nat (le_n _)). unfold key_ge_at in Hhi. cbn in Hhi. cbn.
+      destruct (bytes_eqb k k0) eqn:E; auto.
+      apply key_leb_spec in Hhi as [L|L]; [|apply bytes_eqb_neq in E; contradiction].
+      symmetry. apply assoc_above. intros y Hy. eapply key_lt_trans; eauto.
+    + pose proof (Hlo 0%nat (Nat.lt_0_succ _)) as H0. unfold key_ge_at in H0. cbn in H0.
+      apply key_leb_false in H0. cbn [nth_error assoc]. rewrite (key_lt_eqb_false' _ _ H0).
+      apply IH; auto.
+      * intros x Hx. apply (Hlo (S x)). lia.
+      * intros x Hx. apply (Hhi (S x)). lia.
+Qed.
+
 Lemma set_value_assoc s k : SortedUnique s -> set_value s k = assoc k s.
 Proof.
-  induction s as [|[k' v] r IH]; cbn; [auto|]. intros [H1 H2]. cbn [fst] in H1.
-  destruct (key_leb k k') eqn:E.
-  - destruct (bytes_eqb k k') eqn:E2; auto.
-    apply key_leb_spec in E as [E|E]; [|apply bytes_eqb_neq in E2; contradiction].
-    symmetry. apply assoc_above. intros y Hy. eapply key_lt_trans; eauto.
-  - apply key_leb_false in E. rewrite (key_lt_eqb_false' _ _ E). auto.
+  intro Hs. unfold set_value, sort_search.
+  destruct (bsearch_spec (key_ge_at s k) (key_ge_at_mono s k Hs) (length s) 0 (length s)) as [Hlo Hhi]; try lia.
+  - intros x Hx. unfold key_ge_at. assert (E : nth_error s x = None) by (apply nth_error_None; lia). now rewrite E.
+  - now apply boundary_lookup.
 Qed.
 
 Lemma assoc_some_in_iff s k v : SortedUnique s -> (assoc k s = Some v <-> In (k, v) s).
@@ -858,4 +916,102 @@ Proof.
   intros k Hk. assert (Ha : assoc k a = None) by (apply assoc_none; intro; apply Hk, in_or_app; auto).
   assert (Hb : assoc k b = None) by (apply assoc_none; intro; apply Hk, in_or_app; right; apply in_or_app; auto).
   rewrite Ha, Hb. split; auto. apply assoc_none; intro; apply Hk, in_or_app; right; apply in_or_app; auto.
+Qed.
+
+(** * The default encoding of string-valued sets can be read back *)
+Definition special (c : N) : bool := (c =? 61) || (c =? 44) || (c =? 92).
+
+Lemma esc_cons c a : esc (c :: a) = (if special c then [92; c] else [c]) ++ esc a.
+Proof. reflexivity. Qed.
+
+Lemma split_unesc_esc sep a : sep = 44 \/ sep = 61 -> forall rest cur,
+  split_unesc sep (esc a ++ rest) cur = split_unesc sep rest (rev (esc a) ++ cur).
+Proof.
+  intro Hs. induction a as [|c a IH]; intros rest cur; [reflexivity|].
+  rewrite esc_cons. destruct (special c) eqn:E.
+  - cbn [app split_unesc]. cbn [N.eqb Pos.eqb]. rewrite IH. cbn [rev]. now rewrite <- !app_assoc.
+  - unfold special in E. apply orb_false_iff in E as [E E3]. apply orb_false_iff in E as [E1 E2].
+    cbn [app split_unesc]. rewrite E3.
+    assert (Es : (c =? sep) = false) by (destruct Hs as [->| ->]; auto). rewrite Es.
+    rewrite IH. cbn [rev]. now rewrite <- app_assoc.
+Qed.
+
+Lemma unesc_esc a r : unesc (esc a ++ r) = a ++ unesc r.
+Proof.
+  induction a as [|c a IH]; [reflexivity|]. rewrite esc_cons. destruct (special c) eqn:E.
+  - cbn [app unesc]. cbn [N.eqb Pos.eqb]. now rewrite IH.
+  - unfold special in E. apply orb_false_iff in E as [_ E3]. cbn [app unesc]. rewrite E3. now rewrite IH.
+Qed.
+
+Definition enc_item (p : bytes * bytes) : bytes := esc (fst p) ++ [61] ++ esc (snd p).
+
+Lemma decode_item_enc p : decode_item (enc_item p) = Some p.
+Proof.
+  destruct p as [k v]. unfold decode_item, enc_item. cbn [fst snd].
+  rewrite split_unesc_esc by auto. cbn [app split_unesc]. cbn [N.eqb Pos.eqb].
+  rewrite app_nil_r, rev_involutive.
+  rewrite <- (app_nil_r (esc v)) at 1. rewrite split_unesc_esc by auto. cbn [split_unesc].
+  rewrite app_nil_r, rev_involutive.
+  rewrite <- (app_nil_r (esc k)) at 1. rewrite <- (app_nil_r (esc v)) at 1. now rewrite !unesc_esc, !app_nil_r.
+Qed.
+
+Lemma split44_item p rest cur :
+  split_unesc 44 (enc_item p ++ rest) cur = split_unesc 44 rest (rev (enc_item p) ++ cur).
+Proof.
+  destruct p as [k v]. unfold enc_item. cbn [fst snd]. rewrite <- !app_assoc.
+  rewrite split_unesc_esc by auto. cbn [app split_unesc]. cbn [N.eqb Pos.eqb].
+  rewrite split_unesc_esc by auto. rewrite !rev_app_distr. cbn [rev app]. now rewrite <- !app_assoc.
+Qed.
+
+Lemma split44_join x l : split_unesc 44 (join [44] (map enc_item (x :: l))) [] = map enc_item (x :: l).
+Proof.
+  revert x. induction l as [|y l IH]; intro x.
+  - cbn [map join]. rewrite <- (app_nil_r (enc_item x)) at 1. rewrite split44_item. cbn [split_unesc].
+    now rewrite app_nil_r, rev_involutive.
+  - change (join [44] (map enc_item (x :: y :: l))) with (enc_item x ++ [44] ++ join [44] (map enc_item (y :: l))).
+    rewrite split44_item. cbn [app split_unesc]. cbn [N.eqb Pos.eqb].
+    rewrite app_nil_r, rev_involutive, IH. reflexivity.
+Qed.
+
+Lemma all_some_decode l : all_some (map decode_item (map enc_item l)) = Some l.
+Proof. induction l as [|p l IH]; [reflexivity|]. cbn [map all_some]. now rewrite decode_item_enc, IH. Qed.
+
+Lemma enc_item_nonnil p r : enc_item p ++ r <> [].
+Proof. destruct p as [k v]. unfold enc_item. cbn [fst]. destruct (esc k); discriminate. Qed.
+
+Lemma decode_strings_join l : decode_strings (join [44] (map enc_item l)) = Some l.
+Proof.
+  destruct l as [|x l]; [reflexivity|]. unfold decode_strings.
+  destruct (join [44] (map enc_item (x :: l))) eqn:E.
+  - exfalso. destruct l; cbn [map join] in E.
+    + apply (enc_item_nonnil x []). now rewrite app_nil_r.
+    + now apply enc_item_nonnil in E.
+  - rewrite <- E, split44_join. apply all_some_decode.
+Qed.
+
+Lemma encode_strings emit s : forall l, all_some (map string_binding s) = Some l ->
+  map (encode_kv emit) s = map enc_item l.
+Proof.
+  induction s as [|[k v] s IH]; intros l H; cbn in H.
+  - inversion H. reflexivity.
+  - unfold string_binding in H at 1. cbn [fst snd] in H. destruct v; try discriminate.
+    destruct (all_some (map string_binding s)) as [l'|]; [|discriminate]. inversion H; subst.
+    cbn [map]. f_equal. now apply IH.
+Qed.
+
+(** Whatever Emit does, the encoding of a set holding only strings decodes to exactly its bindings. *)
+Lemma encode_lossless emit s : EncodingSpec s (encode emit s).
+Proof. intros l H. unfold encode. rewrite (encode_strings emit s l H). apply decode_strings_join. Qed.
+
+Lemma strpair_eqb_eq a b : strpair_eqb a b = true <-> a = b.
+Proof.
+  unfold strpair_eqb. rewrite andb_true_iff, !bytes_eqb_eq. destruct a, b; cbn.
+  split; [intros [-> ->]; auto | intro H; inversion H; auto].
+Qed.
+
+Lemma encoding_ok_sound s enc : encoding_ok s enc = true -> EncodingSpec s enc.
+Proof.
+  unfold encoding_ok, EncodingSpec. intros H l Hl. rewrite Hl in H.
+  destruct (decode_strings enc) as [d|]; [|discriminate]. cbn in H.
+  apply (list_eqb_eq _ strpair_eqb_eq) in H. now subst.
 Qed.
